@@ -329,7 +329,9 @@ class AsyncFIXConnection:
                     await self._process_message(decoded_msg, raw_msg)
             except asyncio.CancelledError:
                 return
-            except ConnectionError as why:
+            except OSError as why:
+                # ConnectionError and every other OS-level read failure (timeout,
+                #  unreachable host): the stream keeps raising it, the socket is dead
                 self.log.debug(
                     "socket_read_task: connection has been closed %s" % (why,)
                 )
